@@ -69,13 +69,26 @@ def run(ctx):
     # ---- axis source
     dimsname = None
     for st in vl.body:
-        if isinstance(st, ast.Assign) and isinstance(st.targets[0], ast.Name) and norm(st.value) == '%s.dimensions' % vname:
+        if isinstance(st, ast.Assign) and isinstance(st.targets[0], ast.Name) and norm(st.value) in ('%s.dimensions' % vname, 'tuple(%s.dimensions)' % vname, 'list(%s.dimensions)' % vname):
             dimsname = st.targets[0].id
     enum = [st for st in iter_stmts(vl.body) if isinstance(st, ast.Assign) and any(isinstance(c, ast.Call) and dotted(c.func) == 'enumerate' for c in ast.walk(st.value))]
     inner = [st for st in iter_stmts(vl.body) if isinstance(st, ast.For) and isinstance(st.target, ast.Tuple) and len(st.target.elts) == 2]
     axisvar = None
     from .. import paths as _paths
-    if inner:
+    dkn_idx = None
+    idxloop = None
+    if not inner and dimsname:
+        # index loop: for I in range(.. len(<dims>) ..): K = <dims>[I]
+        for st in iter_stmts(vl.body):
+            if isinstance(st, ast.For) and isinstance(st.target, ast.Name) and isinstance(st.iter, ast.Call) and dotted(st.iter.func) in ('range', 'reversed') \
+                    and 'len(%s)' % dimsname in norm(st.iter):
+                for s2 in st.body:
+                    if isinstance(s2, ast.Assign) and isinstance(s2.targets[0], ast.Name) and norm(s2.value) == '%s[%s]' % (dimsname, st.target.id):
+                        idxloop, dkn_idx = st, s2.targets[0].id
+    if idxloop is not None:
+        axisvar = idxloop.target.id
+        ctx.ok('R-AXISOFVAR', 'axis source', where, 'for %s in %s with %s = %s[%s]' % (axisvar, norm(idxloop.iter)[:40], dkn_idx, dimsname, axisvar))
+    elif inner:
         # the iterable with temporaries substituted and order/copy wrappers removed must be enumerate(<variable>.dimensions)
         it = inner[0].iter
         for pth in _paths.enumerate_paths(vl.body):
@@ -149,9 +162,10 @@ def run(ctx):
         ctx.violation(Finding('R-UNTOUCHED', RP, Q, vl, 'not every variable is copied and assigned the running value at the end of the loop body: variables without the named dimensions are missing or empty in the result'))
     # on every path of the per-axis loop body on which the running value is replaced, the dimension was found among the named ones
     unguarded, nrepl, skipped = None, 0, None
-    if inner:
-        dkn = inner[0].target.elts[1].id if isinstance(inner[0].target.elts[1], ast.Name) else None
-        for pth in _paths.enumerate_paths(inner[0].body):
+    if inner or idxloop is not None:
+        lp_ = inner[0] if inner else idxloop
+        dkn = dkn_idx if idxloop is not None and not inner else (inner[0].target.elts[1].id if isinstance(inner[0].target.elts[1], ast.Name) else None)
+        for pth in _paths.enumerate_paths(lp_.body):
             repl = [st for st in pth.stmts if isinstance(st, (ast.Assign, ast.AugAssign)) and any(isinstance(t, ast.Name) and t.id == run_name for t in (st.targets if isinstance(st, ast.Assign) else [st.target]))]
             if not repl:
                 # a named dimension that is skipped: the reducer is not applied along it although it was asked for
